@@ -199,7 +199,7 @@ def rule_queue(ctx: Ctx) -> None:
         has_dlq = p.decided(lambda t: t == "self._dead_letter_queueisnotNone")
         if "pending_queue.append" in ops:
             kinds["requeue"] += 1
-            lim = p.decided(lambda t: t == "msg.delivery_count<self._max_redeliveries")
+            lim = p.decided(lambda t: t == "msg.delivery_count<=self._max_redeliveries")  # delivery_count includes the first delivery: count-1 redeliveries so far
             rq = p.decided(lambda t: t == "requeue")
             if sorted(ops) != ["in_flight.pop", "pending_queue.append", "pending_queue.discard"] or ops.index("pending_queue.discard") > ops.index("pending_queue.append") or lim is not True or rq is not True or dlq_calls:
                 bad.append(f"requeue path [{p.describe()[:80]}] ops {ops}")
@@ -224,7 +224,7 @@ def rule_queue(ctx: Ctx) -> None:
         rej = [c for n in p.nodes for e in own_exprs(n) for c in walk_scope(e) if isinstance(c, ast.Call) and path_of(c.func) == "self.reject"]
         if rej:
             kinds["dead"] += 1
-            lim = p.decided(lambda t: t == "msg.delivery_count>=self._max_redeliveries")
+            lim = p.decided(lambda t: t == "msg.delivery_count>self._max_redeliveries")
             kws = {k.arg: unparse(k.value) for k in rej[0].keywords}
             if ops or lim is not True or kws.get("requeue") != "False" or [path_of(a) for a in rej[0].args] != ["message_id"]:
                 bad.append(f"limit path ops {ops} / {unparse(rej[0])}")
@@ -246,8 +246,11 @@ def rule_queue(ctx: Ctx) -> None:
     # the limit is compared the same way at both sites
     a = [f.sig for n in rf.cfg.nodes if n.kind == "test" for f in atoms(n.ast, True) if "delivery_count" in f.a + f.b]
     b = [f.sig for n in sf.cfg.nodes if n.kind == "test" for f in atoms(n.ast, True) if "delivery_count" in f.a + f.b]
-    ok = a == [("lt", "msg.delivery_count", "self._max_redeliveries")] and b == [("le", "self._max_redeliveries", "msg.delivery_count")]
-    ctx.ob("C19-2", "G4", sr, "limit direction", ok, f"reject requeues while delivery_count < max, schedule_redelivery dead-letters when delivery_count >= max: complementary tests (reject {a}, timeout {b})")
+    # delivery_count counts the first delivery too, so `max_redeliveries` redeliveries are allowed while delivery_count <= max, and the
+    # message is dead-lettered once delivery_count > max (max = 1 gives exactly one redelivery, not the behaviour of max = 0)
+    ok = a == [("le", "msg.delivery_count", "self._max_redeliveries")] and b == [("lt", "self._max_redeliveries", "msg.delivery_count")]
+    ctx.ob("C19-2", "G4", sr, "limit direction", ok, f"reject requeues while delivery_count <= max (i.e. fewer than max redeliveries so far), schedule_redelivery dead-letters when delivery_count > max: complementary tests, "
+           f"and max_redeliveries = k allows exactly k redeliveries (reject {a}, timeout {b})")
     # redelivery event: to the queue itself, carrying the id, at now + delay; handler delivers that id
     ev = [c for c in calls_in(sr.node) if path_of(c.func) == "Event"]
     kw = {k.arg: k.value for k in ev[0].keywords} if len(ev) == 1 else {}
@@ -303,6 +306,10 @@ def rule_queue(ctx: Ctx) -> None:
         okc = "self._message_times[0]" in te and "self._retention_period" in te and "self._messages[" not in te
     ctx.ob("C19-2", "G7", ce, tests[0] if tests else None, okc, "DeadLetterQueue._cleanup_expired discards a dead letter only when the time since it *entered the DLQ* (`_message_times[0]`) exceeds the retention period "
            "— a message that spent long in the queue before being dead-lettered is not lost on arrival")
+
+
+def q_cg_all(prog):
+    return [f for f in prog.module(CG).all_functions if f.cls is not None and f.cls.name == "ConsumerGroup"]
 
 
 def rule_topic(ctx: Ctx) -> None:
@@ -497,12 +504,78 @@ def rule_group(ctx: Ctx) -> None:
     ctx.ob("C19-7", "G2", sa, kept[0] if kept else None, ok, "StickyAssignment keeps only still-existing partitions of still-present consumers, assigns each remaining partition once, and remembers a copy of exactly the result it returns")
     pl = [s for s in walk_stmts(he.node.body) if isinstance(s, ast.If) and unparse(s.test) == "event_type == 'Poll'"]
     rd = [c for c in calls_in(pl[0]) if path_of(c.func) == "self._event_log._do_read"] if pl else []
-    ok = len(rd) == 1 and [unparse(a) for a in rd[0].args] == ["pid", "offset", "remaining"] and any(unparse(s).replace(" ", "") == "offset=offsets.get(pid,0)" for s in walk_stmts(pl[0].body)) \
+    offs = [s for s in walk_stmts(pl[0].body) if isinstance(s, ast.Assign) and path_of(s.targets[0]) == "offset"] if pl else []
+    otxt = unparse(offs[0].value).replace(" ", "") if len(offs) == 1 else ""
+    # the read position is the larger of the member's own commit and the group's per-partition high-water mark (a partition may have been
+    # consumed by another member before a rebalance): committed offsets never move backwards across an ownership change
+    ok = len(rd) == 1 and [unparse(a) for a in rd[0].args] == ["pid", "offset", "remaining"] and otxt.startswith("max(") and "offsets.get(pid,0)" in otxt and "self._group_offsets.get(pid,0)" in otxt \
         and any(unparse(s).replace(" ", "") == "assigned=self._assignments.get(consumer_name,[])" for s in walk_stmts(pl[0].body))
-    ctx.ob("C19-7", "G7", he, rd[0] if rd else None, ok, "a poll reads only the partitions currently assigned to the polling consumer, from its committed offset")
+    ctx.ob("C19-7", "G7", he, rd[0] if rd else None, ok, "a poll reads only the partitions currently assigned to the polling consumer, from max(its own committed offset, the group's committed offset of the partition)")
+    cm = [s for s in walk_stmts(he.node.body) if isinstance(s, ast.If) and unparse(s.test) == "event_type == 'Commit'"]
+    gw = [s for s in walk_stmts(cm[0].body) if isinstance(s, ast.Assign) and unparse(s.targets[0]).replace(" ", "") == "self._group_offsets[pid]"] if cm else []
+    okg = len(gw) == 1 and unparse(gw[0].value).replace(" ", "") == "max(self._group_offsets.get(pid,0),offset)"
+    ctx.ob("C19-7", "G6", he, gw[0] if gw else None, okg, "every commit raises the group's per-partition committed offset monotonically (max with the previous value)")
+    for fn_ in q_cg_all(prog):
+        for st in walk_stmts(fn_.node.body):
+            if isinstance(st, (ast.Assign, ast.AugAssign, ast.Delete)) and fn_.name != "__init__":
+                tg = st.targets if isinstance(st, (ast.Assign, ast.Delete)) else [st.target]
+                if any("self._group_offsets" in unparse(t_) for t_ in tg) and st not in gw:
+                    ctx.ob("C19-7", "G6", fn_, st, False, f"{fn_.qual}: the group's committed offsets are only ever raised by Commit (found `{norm_stmt(st)}`)")
+        for c_ in calls_in(fn_.node):
+            if isinstance(c_.func, ast.Attribute) and path_of(c_.func.value) == "self._group_offsets" and c_.func.attr in ("pop", "clear", "popitem", "update", "setdefault"):
+                ctx.ob("C19-7", "G6", fn_, c_, False, f"{fn_.qual}: the group's committed offsets are never removed or rewritten wholesale (found `{unparse(c_)[:60]}`)")
+
+
+def rule_dlq_replay_and_flag(ctx: Ctx) -> None:
+    """C19-2 (hunted defects): (a) every event type the dead-letter queue aims at a message queue is one `MessageQueue.handle_event` acts on —
+    `reprocess()` has already removed the message from the DLQ, an unhandled event type loses it; (b) a delivery clears the
+    "redelivery scheduled" flag of the message it delivers, before its suspension: the flag belongs to the *previous* delivery's timer,
+    and a flag that survives makes the next `schedule_redelivery()` refuse (the message then sits in flight for ever)."""
+    prog = ctx.prog
+    dq = prog.cls(DLQ, "DeadLetterQueue")
+    emitted = set()
+    for m in dq.methods.values():
+        for c in calls_in(m.node):
+            if path_of(c.func) == "Event":
+                kw = {k.arg: k.value for k in c.keywords}
+                if path_of(kw.get("target")) == "target_queue" and isinstance(kw.get("event_type"), ast.Constant):
+                    emitted.add(kw["event_type"].value)
+    he = prog.func(MQ, "MessageQueue.handle_event")
+    handled = set()
+    for t_ in [x for x in ast.walk(he.node) if isinstance(x, ast.Compare) and len(x.ops) == 1 and isinstance(x.ops[0], (ast.Eq, ast.In))]:
+        sides = [t_.left] + list(t_.comparators)
+        if any(path_of(sd_) in ("event_type", "event.event_type") for sd_ in sides):
+            for sd_ in sides:
+                for cst in ast.walk(sd_):
+                    if isinstance(cst, ast.Constant) and isinstance(cst.value, str):
+                        handled.add(cst.value)
+    need(emitted, "C19-2: the DLQ no longer emits any event towards a target queue")
+    miss = sorted(emitted - handled)
+    ctx.ob("C19-2", "G8", he, "DLQ → queue event types are handled", not miss, f"every event type DeadLetterQueue sends to a queue ({sorted(emitted)}) has a branch in MessageQueue.handle_event ({sorted(handled)})"
+           + ("" if not miss else f" — unhandled: {miss}: a replayed message is removed from the DLQ and then dropped"))
+    # the handler of a replay event publishes the payload
+    for et in sorted(emitted & handled):
+        br = [s_ for s_ in walk_stmts(he.node.body) if isinstance(s_, ast.If) and f"'{et}'" in unparse(s_.test)]
+        pub = [c for b_ in br for c in calls_in(b_) if path_of(c.func) == "self.publish"]
+        ctx.ob("C19-2", "G2", he, br[0] if br else None, len(pub) == 1, f"the `{et}` branch re-publishes the replayed payload into the queue")
+    dl = prog.func(MQ, "MessageQueue._deliver_message")
+    ff = ctx.flow(dl)
+    from ..suspend import node_suspension
+    infl = [n_ for n_ in ff.cfg.nodes if n_.kind == "stmt" and isinstance(n_.ast, ast.Assign) and unparse(n_.ast.targets[0]).replace(" ", "") == "self._in_flight[message_id]"]
+    clr = [n_ for n_ in ff.cfg.nodes if n_.kind == "stmt" and any(path_of(k.func) == "self._redelivery_scheduled.discard" and [path_of(a_) for a_ in k.args] == ["message_id"] for k in calls_in(n_.ast))]
+    susp = [n_ for n_ in ff.cfg.nodes if n_.kind in ("stmt", "test", "for") and node_suspension(prog, dl, n_)]
+    ok = len(infl) == 1 and bool(clr) and bool(susp)
+    if ok:
+        # on every path that moves the message to in-flight, the flag is cleared before the first suspension after it
+        for p_ in enumerate_paths(ff, infl[0], stop=lambda x: any(x is s_ for s_ in susp)):
+            if p_.end == "stop" and not any(any(nd is c_ for c_ in clr) for nd in p_.nodes):
+                ok = False
+    ctx.ob("C19-2", "G2", dl, infl[0].ast if infl else None, ok, "_deliver_message clears the message's redelivery-scheduled flag when it moves the message to in-flight, before its suspension "
+           "(the new delivery supersedes the outstanding timer)")
 
 
 def run(ctx: Ctx) -> None:
+    ctx.guarded(rule_dlq_replay_and_flag)
     ctx.guarded(rule_queue)
     ctx.guarded(rule_topic)
     ctx.guarded(rule_log)
@@ -512,6 +585,11 @@ def run(ctx: Ctx) -> None:
 
 
 MUTANTS = [
+    ("queue-ignores-republish", MQ, "        if event_type == \"republish\":", "        if event_type == \"republish_\":", "C19-2"),
+    ("delivery-keeps-redelivery-flag", MQ, "        self._redelivery_scheduled.discard(message_id)\n\n        # Track delivery latency", "\n        # Track delivery latency", "C19-2"),
+    ("poll-ignores-group-offset", CG, "                offset = max(offsets.get(pid, 0), self._group_offsets.get(pid, 0))\n", "                offset = offsets.get(pid, 0)\n", "C19-7"),
+    ("rebalance-clears-group-offsets", CG, "        self._generation += 1\n", "        self._generation += 1\n        self._group_offsets.clear()\n", "C19-7"),
+    ("timeout-limit-one-short", MQ, "        if msg.delivery_count > self._max_redeliveries:", "        if msg.delivery_count >= self._max_redeliveries:", "C19-2"),
     ("dlq-age-from-publish-time", DLQ, "            msg_time = self._message_times[0]\n", "            msg_time = self._messages[0].created_at\n", "C19-2"),
     ("stale-timer-keeps-marker", MQ, "                self._redelivery_scheduled.discard(message_id)\n                # schedule_redelivery() left the message pollable at the head\n                # of the pending queue. If a poll already picked it up (or it\n                # was acknowledged/dead-lettered meanwhile) this timer is stale.\n                if message_id not in self._pending_queue:\n                    return []\n",
      "                if message_id not in self._pending_queue:\n                    return []\n                self._redelivery_scheduled.discard(message_id)\n", "C19-2"),
@@ -519,20 +597,20 @@ MUTANTS = [
     ("deliver-to-departed-consumer", MQ, "        if consumer not in self._consumers:\n            consumer = self._get_next_consumer()", "        if consumer is None:\n            consumer = self._get_next_consumer()", "C19-2"),
     ("redelivery-timer-unguarded", MQ, "                if message_id not in self._pending_queue:\n                    return []\n", "", "C19-2"),
     ("ack-leaves-pending-id", MQ, "        self._in_flight.pop(message_id, None)\n        self._discard_pending(message_id)\n        self._messages.pop(message_id, None)", "        self._in_flight.pop(message_id, None)\n        self._messages.pop(message_id, None)", "C19-2"),
-    ("reject-leaves-pending-id", MQ, "        self._in_flight.pop(message_id, None)\n        self._discard_pending(message_id)\n\n        if requeue", "        self._in_flight.pop(message_id, None)\n\n        if requeue", "C19-2"),
+    ("reject-leaves-pending-id", MQ, "        self._in_flight.pop(message_id, None)\n        self._discard_pending(message_id)\n\n        # delivery_count includes", "        self._in_flight.pop(message_id, None)\n\n        # delivery_count includes", "C19-2"),
     ("undo-keeps-in-flight", MQ, "                    del self._in_flight[message_id]\n", "                    pass\n", "C19-2"),
     ("undo-drops-message", MQ, "                    self._pending_queue.appendleft(message_id)\n                return None", "                return None", "C19-2"),
     ("publish-queues-after-latency", MQ, ["        self._pending_queue.append(message_id)\n        self._messages_published += 1\n\n        # Small publish latency\n        yield 0.0001\n"], ["        self._messages_published += 1\n\n        # Small publish latency\n        yield 0.0001\n        self._pending_queue.append(message_id)\n"], "C19-2"),
-    ("deliver-in-flight-after-latency", MQ, ["        self._in_flight[message_id] = msg\n\n        # Track delivery latency", "        yield self._delivery_latency\n"], ["        # Track delivery latency", "        yield self._delivery_latency\n        self._in_flight[message_id] = msg\n"], "C19-2"),
+    ("deliver-in-flight-after-latency", MQ, ["        self._in_flight[message_id] = msg\n        # This delivery supersedes", "        yield self._delivery_latency\n"], ["        # This delivery supersedes", "        yield self._delivery_latency\n        self._in_flight[message_id] = msg\n"], "C19-2"),
     ("deliver-counts-twice", MQ, "        msg.delivery_count += 1\n        msg.last_delivered_at = now", "        msg.delivery_count += 2\n        msg.last_delivered_at = now", "C19-2"),
     ("deliver-no-stored-guard", MQ, "        if message_id not in self._messages:\n            return None\n\n        consumer = self._get_next_consumer()", "        consumer = self._get_next_consumer()", "C19-2"),
     ("deliver-stale-stamp", MQ, "        delivery_event = Event(\n            time=self._clock.now if self._clock else Instant.Epoch,\n            event_type=\"message_delivery\",", "        delivery_event = Event(\n            time=now,\n            event_type=\"message_delivery\",", "C19-1"),
     ("ack-keeps-in-flight", MQ, "        self._in_flight.pop(message_id, None)\n        self._discard_pending(message_id)\n        self._messages.pop(message_id, None)", "        self._discard_pending(message_id)\n        self._messages.pop(message_id, None)", "C19-2"),
     ("reject-requeue-and-remove", MQ, "            msg.state = MessageState.PENDING\n            self._pending_queue.append(message_id)\n        else:", "            msg.state = MessageState.PENDING\n            self._pending_queue.append(message_id)\n            self._messages.pop(message_id, None)\n        else:", "C19-2"),
     ("reject-dlq-keeps-stored", MQ, "                self._messages_dead_lettered += 1\n            self._messages.pop(message_id, None)", "                self._messages_dead_lettered += 1", "C19-2"),
-    ("reject-limit-inclusive", MQ, "        if requeue and msg.delivery_count < self._max_redeliveries:", "        if requeue and msg.delivery_count <= self._max_redeliveries:", "C19-2"),
+    ("reject-limit-one-short", MQ, "        if requeue and msg.delivery_count <= self._max_redeliveries:", "        if requeue and msg.delivery_count < self._max_redeliveries:", "C19-2"),
     ("reject-skips-dlq", MQ, "                self._dead_letter_queue.add_message(msg)\n                self._messages_dead_lettered += 1", "                self._messages_dead_lettered += 1", "C19-2"),
-    ("timeout-ignores-limit", MQ, "        if msg.delivery_count >= self._max_redeliveries:\n            # Dead letter\n            self.reject(message_id, requeue=False)\n            return None\n", "", "C19-2"),
+    ("timeout-ignores-limit", MQ, "        if msg.delivery_count > self._max_redeliveries:\n            # Dead letter: all max_redeliveries redeliveries (on top of the\n            # first delivery) have been used up.\n            self.reject(message_id, requeue=False)\n            return None\n", "", "C19-2"),
     ("timeout-requeues-at-back", MQ, "        self._in_flight.pop(message_id, None)\n        self._pending_queue.appendleft(message_id)", "        self._in_flight.pop(message_id, None)\n        self._pending_queue.append(message_id)", "C19-2"),
     ("timeout-keeps-in-flight", MQ, "        msg.state = MessageState.PENDING\n        self._in_flight.pop(message_id, None)\n        self._pending_queue.appendleft(message_id)", "        msg.state = MessageState.PENDING\n        self._pending_queue.appendleft(message_id)", "C19-2"),
     ("poll-takes-newest", MQ, "        message_id = self._pending_queue[0]", "        message_id = self._pending_queue[-1]", "C19-3"),
@@ -556,7 +634,7 @@ MUTANTS = [
     ("commit-key-renamed-in-generator", CG, "                \"consumer_name\": consumer_name,\n                \"offsets\": offsets,", "                \"consumer_name\": consumer_name,\n                \"positions\": offsets,", "C19-8"),
 ]
 REFACTORS = [
-    ("reject-branches-swapped", MQ, ["        if requeue and msg.delivery_count < self._max_redeliveries:\n            # Requeue for redelivery\n            msg.state = MessageState.PENDING\n            self._pending_queue.append(message_id)\n        else:\n            # Dead letter or discard\n            if self._dead_letter_queue is not None:\n                self._dead_letter_queue.add_message(msg)\n                self._messages_dead_lettered += 1\n            self._messages.pop(message_id, None)\n            self._redelivery_scheduled.discard(message_id)"],
-     ["        if not (requeue and msg.delivery_count < self._max_redeliveries):\n            if self._dead_letter_queue is not None:\n                self._dead_letter_queue.add_message(msg)\n                self._messages_dead_lettered += 1\n            self._messages.pop(message_id, None)\n            self._redelivery_scheduled.discard(message_id)\n        else:\n            msg.state = MessageState.PENDING\n            self._pending_queue.append(message_id)"]),
+    ("reject-branches-swapped", MQ, ["        if requeue and msg.delivery_count <= self._max_redeliveries:\n            # Requeue for redelivery\n            msg.state = MessageState.PENDING\n            self._pending_queue.append(message_id)\n        else:\n            # Dead letter or discard\n            if self._dead_letter_queue is not None:\n                self._dead_letter_queue.add_message(msg)\n                self._messages_dead_lettered += 1\n            self._messages.pop(message_id, None)\n            self._redelivery_scheduled.discard(message_id)"],
+     ["        if not (requeue and msg.delivery_count <= self._max_redeliveries):\n            if self._dead_letter_queue is not None:\n                self._dead_letter_queue.add_message(msg)\n                self._messages_dead_lettered += 1\n            self._messages.pop(message_id, None)\n            self._redelivery_scheduled.discard(message_id)\n        else:\n            msg.state = MessageState.PENDING\n            self._pending_queue.append(message_id)"]),
     ("commit-max-args-swapped", CG, "                committed[pid] = max(committed.get(pid, 0), offset)", "                committed[pid] = max(offset, committed.get(pid, 0))"),
 ]
